@@ -7,6 +7,7 @@ from .. import fmtdrv
 LEVEL = "exploration"
 OPS = ["aA", "aF", "sM", "aS", "aP", "cA", "cF", "cM", "cS", "cP", "cc"]
 NULLS = ["nA", "nF", "nM", "nS", "nP"]
+REUSE = ["rA", "rF", "rM", "rS", "rP"]   # pass the most recently created instance of that class again
 RANK = {"A": 0, "F": 1, "M": 2, "S": 3, "P": 4}
 
 
@@ -15,17 +16,23 @@ def reference(ops):
     cur = []
     out = []
     hid = 0
+    last = {}
     for op in ops:
         hid += 1  # the driver burns one id per op, whatever the op
-        if op[0] == "a" or op == "sM":
+        if op[0] == "a" or op == "sM" or (op[0] == "r" and op[1] in last):
             cls = op[1]
+            ident = hid
+            if op[0] == "r":
+                ident = last[cls]
+            else:
+                last[cls] = hid
             if cls == "M":
                 cur = [h for h in cur if h[0] != "M"]
             pos = 0
             for i, h in enumerate(cur):
                 if RANK[h[0]] <= RANK[cls]:
                     pos = i + 1
-            cur = cur[:pos] + [(cls, hid)] + cur[pos:]
+            cur = cur[:pos] + [(cls, ident)] + cur[pos:]
         elif op[0] == "c":
             if op == "cc":
                 cur = []
@@ -52,6 +59,10 @@ def gen_cases(ctx):
         for seq in itertools.product(OPS, repeat=n):
             cases.append(list(seq))
     n_exh = len(cases)
+    for n in range(2, 4):
+        for seq in itertools.product(["aA", "aF", "sM", "aS", "aP"] + REUSE, repeat=n):
+            if any(o[0] == "r" for o in seq):
+                cases.append(list(seq))
     for _ in range(ctx.pick(5000, 400000)):
         n = rnd.randint(1, 60)
         # weight appends over clears so that lists grow
@@ -60,6 +71,9 @@ def gen_cases(ctx):
         if rnd.random() < 0.3:
             for _ in range(rnd.randint(1, 4)):
                 seq.insert(rnd.randrange(len(seq) + 1), rnd.choice(NULLS))
+        if rnd.random() < 0.4:
+            for _ in range(rnd.randint(1, 5)):
+                seq.insert(rnd.randrange(len(seq) + 1), rnd.choice(REUSE))
         cases.append(seq)
     return cases, n_exh, exhaustive_len
 
@@ -136,7 +150,7 @@ def run(ctx):
     cov = {
         "evaluations": len(cases) * len(flavours),
         "distinct_nontrivial": len(nontrivial),
-        "rule": "call sequences over %s (+ null-argument calls); all sequences of length <= %d enumerated "
+        "rule": "call sequences over %s (+ null-argument calls, + calls that pass an already inserted instance again); all sequences of length <= %d enumerated "
                 "(%d), the rest random of length 1..60; each executed in the ASan/UBSan/_GLIBCXX_DEBUG build and "
                 "in the plain build; arrangement and execution order compared with a rank-ordered list model "
                 "after EVERY call; non-trivial = at least 3 handler classes present at some point and at "
